@@ -174,8 +174,13 @@ func spin(k int) {
 }
 
 func runLim(c Case, ctl *sched.Ctl, mon *monitor, wg *sync.WaitGroup) {
-	caps := c.caps()
+	caps := append([]int(nil), c.caps()...)
 	ni := len(caps)
+	if c.Obj == "engine" && c.Eng.Off && c.Eng.Chain != 2 {
+		for k := range caps {
+			caps[k] = 0 // Middlewares.MaxConns = false: no limit (gauge of the free-running monitor)
+		}
+	}
 	lims := make([]syncx.Limit, ni)
 	tls := make([]syncx.TimeoutLimit, ni)
 	hs := make([]http.Handler, ni)
